@@ -402,7 +402,13 @@ func (s *OuterJoin) receiveRecord(ctx ExecutionContext, produce ProduceFn, myRec
 						copy(outputValues, subitemTyped.GroupKey)
 					}
 
-					if err := produce(ProduceFromExecutionContext(ctx), NewRecord(outputValues, true, subitemTyped.EventTimes[i])); err != nil {
+					// The null record stops being valid at the time of the record that replaces it, not at its own (older) event time.
+					eventTime := record.EventTime
+					if subitemTyped.EventTimes[i].After(eventTime) {
+						eventTime = subitemTyped.EventTimes[i]
+					}
+
+					if err := produce(ProduceFromExecutionContext(ctx), NewRecord(outputValues, true, eventTime)); err != nil {
 						outErr = fmt.Errorf("couldn't produce: %w", err)
 						return false
 					}
@@ -459,7 +465,13 @@ func (s *OuterJoin) receiveRecord(ctx ExecutionContext, produce ProduceFn, myRec
 						copy(outputValues, subitemTyped.GroupKey)
 					}
 
-					if err := produce(ProduceFromExecutionContext(ctx), NewRecord(outputValues, false, subitemTyped.EventTimes[i])); err != nil {
+					// The null record becomes valid at the time of the retraction that removed the last match, not at its own (older) event time.
+					eventTime := record.EventTime
+					if subitemTyped.EventTimes[i].After(eventTime) {
+						eventTime = subitemTyped.EventTimes[i]
+					}
+
+					if err := produce(ProduceFromExecutionContext(ctx), NewRecord(outputValues, false, eventTime)); err != nil {
 						outErr = fmt.Errorf("couldn't produce: %w", err)
 						return false
 					}
